@@ -65,6 +65,12 @@ static void *t_release(void *arg)
 			/* this thread's reference is held by a container of its own (array element / object member): releasing the container releases the node through the
 			 * container's element-free path */
 			int before = __atomic_load_n(&cb_count[0], __ATOMIC_ACQUIRE);
+			if (NN == 3) {
+				/* ... or only the slot: the element is overwritten / the member replaced or deleted, which releases the node through the container's replacement path */
+				if (json_object_is_type(holder[me], json_type_array)) json_object_array_put_idx(holder[me], 1, json_object_new_int(0));
+				else if (me & 2) json_object_object_add(holder[me], "shared", json_object_new_int(0));
+				else json_object_object_del(holder[me], "shared");
+			}
 			json_object_put(holder[me]);
 			if (!before && __atomic_load_n(&cb_count[0], __ATOMIC_ACQUIRE)) __atomic_add_fetch(&winner[me], 1, __ATOMIC_RELAXED);
 		} else
@@ -89,6 +95,23 @@ static void *t_mutate(void *arg)
 	return NULL;
 }
 
+/* fmtglobal: half of the threads give THEMSELVES the double format that happens to be the process-wide one at that moment; later (at a quiescent point) one of the others
+ * changes the process-wide format: a thread that set its own keeps its own */
+static void *t_fmtglobal(void *arg)
+{
+	int me = (int)(intptr_t)arg; int mine = (me % 2) == 0 && json_c_set_serialization_double_format("%.3f", JSON_C_OPTION_THREAD) == 0; int r;
+	for (r = 0; r < 2; r++) {
+		struct json_object *d; const char *ds;
+		pthread_barrier_wait(&bar);
+		d = json_object_new_double(0.52381); ds = json_object_to_json_string(d);
+		if (strcmp(ds, (r == 0 || mine) ? "0.524" : "0.5")) __atomic_add_fetch(&premature, 1, __ATOMIC_RELAXED);
+		json_object_put(d);
+		pthread_barrier_wait(&bar);
+		if (r == 0 && me == 1) json_c_set_serialization_double_format("%.1f", JSON_C_OPTION_GLOBAL);   /* everybody else is waiting at the next barrier */
+	}
+	if (mine) json_c_set_serialization_double_format(NULL, JSON_C_OPTION_THREAD);
+	return NULL;
+}
 static void *t_disjoint(void *arg)
 {
 	int me = (int)(intptr_t)arg, i; char key[32];
@@ -158,6 +181,7 @@ int main(int argc, char **argv)
 		fn = t_refcount;
 	} else if (!strcmp(sc, "release")) fn = t_release;
 	else if (!strcmp(sc, "disjoint")) fn = t_disjoint;
+	else if (!strcmp(sc, "fmtglobal")) { json_c_set_serialization_double_format("%.3f", JSON_C_OPTION_GLOBAL); fn = t_fmtglobal; if (NT < 2) NT = 2; }
 	else if (!strcmp(sc, "mutate")) { shared[0] = json_object_new_string("shared"); json_object_set_userdata(shared[0], (void *)(intptr_t)0, del_cb); fn = t_mutate; }
 	else if (!strcmp(sc, "readers")) { shared[0] = json_tokener_parse("{\"n\":42,\"a\":[1,2,3],\"s\":\"x\"}"); json_object_set_userdata(shared[0], (void *)(intptr_t)0, del_cb); fn = t_readers; }
 	else if (!strcmp(sc, "seed")) fn = t_seed;
@@ -170,7 +194,7 @@ int main(int argc, char **argv)
 			shared[0] = json_object_new_object(); json_object_set_userdata(shared[0], (void *)(intptr_t)0, del_cb);
 			for (k = 1; k < NT; k++) {
 				json_object_get(shared[0]);
-				if (NN == 2) {   /* container mode: holders 1.. keep their reference inside an array or an object of their own */
+				if (NN >= 2) {   /* container mode: holders 1.. keep their reference inside an array or an object of their own */
 					if (k & 1) { holder[k] = json_object_new_array(); json_object_array_add(holder[k], json_object_new_int(k)); json_object_array_add(holder[k], shared[0]); }
 					else { holder[k] = json_object_new_object(); json_object_object_add(holder[k], "before", json_object_new_int(k)); json_object_object_add(holder[k], "shared", shared[0]); }
 				}
@@ -178,7 +202,7 @@ int main(int argc, char **argv)
 			__atomic_store_n(&freed_reports, 0, __ATOMIC_RELAXED); __atomic_store_n(&cb_count[0], 0, __ATOMIC_RELAXED);
 			pthread_barrier_wait(&bar);
 			pthread_barrier_wait(&bar);
-			k = NN == 2 ? __atomic_load_n(&cb_count[0], __ATOMIC_RELAXED) : __atomic_load_n(&freed_reports, __ATOMIC_RELAXED);
+			k = NN >= 2 ? __atomic_load_n(&cb_count[0], __ATOMIC_RELAXED) : __atomic_load_n(&freed_reports, __ATOMIC_RELAXED);
 			if (k > 1) multi++; else if (k == 0) none++;
 			if (__atomic_load_n(&cb_count[0], __ATOMIC_RELAXED) != 1) cbbad++;
 		}
@@ -197,6 +221,8 @@ int main(int argc, char **argv)
 		}
 		printf("RESULT scenario=refcount threads=%d iters=%d nodes=%d lost_decrement=%ld destroyed_early=%ld premature_seen=%d worker_freed=%d callback_not_once=%ld\n", NT, ITERS, NN, lost_dec, cb_before,
 		       __atomic_load_n(&premature, __ATOMIC_RELAXED), __atomic_load_n(&freed_reports, __ATOMIC_RELAXED), cb_after_bad);
+	} else if (!strcmp(sc, "fmtglobal")) {
+		printf("RESULT scenario=fmtglobal threads=%d iters=%d mismatches=%d\n", NT, ITERS, __atomic_load_n(&premature, __ATOMIC_RELAXED));
 	} else if (!strcmp(sc, "disjoint")) {
 		printf("RESULT scenario=disjoint threads=%d iters=%d mismatches=%d\n", NT, ITERS, __atomic_load_n(&premature, __ATOMIC_RELAXED));
 	} else if (!strcmp(sc, "mutate")) {
